@@ -814,6 +814,11 @@ impl<'e> Pass2<'e> {
                 }
             }
             let mut paths = self.r.paths_to(scope, i);
+            if dyn_owner.is_some() && d.dyn_owner != dyn_owner {
+                // from inside a macro (or loop) body an outer name is looked up from wherever the body is emitted
+                // (dynamic scoping): only a bare, globally unique name means the same thing at every invocation
+                paths.retain(|p| p.len() == 1);
+            }
             if matches!(d.kind, DefKind::Index | DefKind::Param) {
                 // `index` and macro parameters are substituted textually by the hand expansion: bare names only
                 paths.retain(|p| p.len() == 1);
